@@ -11,7 +11,7 @@ import concdrv
 import crashdrv
 
 AUDIT = "Audit/C05.lean"
-MODULE = "Xandikos.Theorems.C05"
+MODULE = "Xandikos.Theorems.C05Tree"
 
 RES = {"InvalidETag": "invalidEtag", "DuplicateUidError": "dupUid", "NoSuchItem": "noSuchItem", "LockedError": "locked"}
 # how many steps of the model an operation has completed when it stands at a yield point
